@@ -49,7 +49,7 @@ Ltac wsolve :=
   split_and; subst; simpl in *; try discriminate;
   wcases; bsimp; split_and; subst; try discriminate; try lia; bgoal.
 
-(* a step that changes nothing but waiter w's record (and the records of observations) *)
+(* a step1 that changes nothing but waiter w's record (and the records of observations) *)
 Lemma inv_w_local s w r r' u' rl' :
   Inv s -> nth_error (ws s) w = Some r ->
   wloc (is_all (head s)) (occ w (lst s)) (icb (incall s) w) r' = true ->
@@ -134,7 +134,7 @@ Proof.
     wfields r; subst; destruct a; try (specialize (Ha eq_refl)); wsolve.
 Qed.
 
-(* the obligations of a local step, once the three global facts are abstracted *)
+(* the obligations of a local step1, once the three global facts are abstracted *)
 Ltac local_d I Hn Hu s w r :=
   clear I Hn Hu; abstract_globals s w; intros hA ic o Hw; wfields r; subst; wsolve.
 
@@ -359,7 +359,7 @@ Ltac step_dispatch I H :=
       eapply inv_step_f; [exact I|exact Hn|exact H]
   end.
 
-Theorem inv_step s e s' : Inv s -> step s e = Some s' -> Inv s'.
+Theorem inv_step1 s e s' : Inv s -> step1 s e = Some s' -> Inv s'.
 Proof.
   intros I H. destruct e.
   1: eapply inv_new_w; eauto.
@@ -368,18 +368,18 @@ Proof.
   1: eapply inv_sub; eauto.
   1: eapply inv_user_set; eauto.
   1: eapply inv_xchg; eauto.
-  all: unfold step, ev_w, ev_f in H; cbv beta iota in H; step_dispatch I H.
+  all: unfold step1, ev_w, ev_f in H; cbv beta iota in H; try discriminate H; try step_dispatch I H.
 Qed.
 
-Theorem inv_run tr : forall s s', Inv s -> run s tr = Some s' -> Inv s'.
+Theorem inv_run1 tr : forall s s', Inv s -> run1 s tr = Some s' -> Inv s'.
 Proof.
   induction tr as [|e tr IH]; simpl; intros s s' I H.
   - inv_some H. exact I.
-  - destruct (step s e) as [s1|] eqn:E; [|discriminate]. eapply IH; [|exact H]. eapply inv_step; eauto.
+  - destruct (step1 s e) as [s1|] eqn:E; [|discriminate]. eapply IH; [|exact H]. eapply inv_step1; eauto.
 Qed.
 
-Theorem inv_reach n tr s : run (init n) tr = Some s -> Inv s.
-Proof. apply inv_run. apply inv_init. Qed.
+Theorem inv_reach1 n tr s : run1 (init n) tr = Some s -> Inv s.
+Proof. apply inv_run1. apply inv_init. Qed.
 
 (* ---- the rule of use as a predicate on traces = the model's [broken] flag ------------------------------- *)
 
@@ -401,7 +401,7 @@ Qed.
 Lemma leb_ltb a b : (a <=? b) = negb (b <? a).
 Proof. apply Nat.leb_antisym. Qed.
 
-Lemma rule_step s e s' r : step s e = Some s' -> broken s = false ->
+Lemma rule_step1 s e s' r : step1 s e = Some s' -> broken s = false ->
   rule_from (cnt s) (uu s) (fired s) (e :: r) = negb (broken s') && rule_from (cnt s') (uu s') (fired s') r.
 Proof.
   intros H Hb. destruct e; simpl rule_from.
@@ -412,7 +412,7 @@ Proof.
        destruct (n =? 0), (uu s <? n), (cnt s <? n), (cnt s =? n), (fired s); reflexivity. }
   1: { simpl in H; inv_some H; simpl; rewrite Hb. destruct (fired s), (cnt s =? 0); reflexivity. }
   1: { simpl in H; case_hyp H; inv_some H; simpl; rewrite Hb; reflexivity. }
-  all: unfold step, ev_w, ev_f in H; cbv beta iota in H.
+  all: unfold step1, ev_w, ev_f in H; cbv beta iota in H; try discriminate H.
   all: match type of H with
        | context [nth_error (ws ?s) ?w] =>
            destruct (nth_error (ws s) w) as [r0|] eqn:Hn; [|discriminate];
@@ -425,11 +425,11 @@ Proof.
   all: destruct (cnt s) as [|[|c]], (fired s); simpl; reflexivity.
 Qed.
 
-Lemma broken_mono_step s e s' : step s e = Some s' -> broken s = true -> broken s' = true.
+Lemma broken_mono_step1 s e s' : step1 s e = Some s' -> broken s = true -> broken s' = true.
 Proof.
   intros H Hb. destruct e.
   1-6: simpl in H; try (case_hyp H); inv_some H; simpl; rewrite ?Hb; auto.
-  all: unfold step, ev_w, ev_f in H; cbv beta iota in H.
+  all: unfold step1, ev_w, ev_f in H; cbv beta iota in H; try discriminate H.
   all: match type of H with
        | context [nth_error (ws ?s) ?w] =>
            destruct (nth_error (ws s) w) as [r0|] eqn:Hn; [|discriminate];
@@ -440,35 +440,35 @@ Proof.
   all: simpl in H; case_hyp H; inv_some H; simpl; rewrite ?Hb; auto.
 Qed.
 
-Lemma broken_mono tr : forall s s', run s tr = Some s' -> broken s = true -> broken s' = true.
+Lemma broken_mono1 tr : forall s s', run1 s tr = Some s' -> broken s = true -> broken s' = true.
 Proof.
   induction tr as [|e tr IH]; simpl; intros s s' H Hb.
   - inv_some H. auto.
-  - destruct (step s e) as [s1|] eqn:E; [|discriminate]. eapply IH; eauto. eapply broken_mono_step; eauto.
+  - destruct (step1 s e) as [s1|] eqn:E; [|discriminate]. eapply IH; eauto. eapply broken_mono_step1; eauto.
 Qed.
 
-Lemma rule_run tr : forall s s', run s tr = Some s' -> broken s = false ->
+Lemma rule_run1 tr : forall s s', run1 s tr = Some s' -> broken s = false ->
   rule_from (cnt s) (uu s) (fired s) tr = negb (broken s').
 Proof.
   induction tr as [|e tr IH]; intros s s' H Hb.
   - simpl in H. inv_some H. rewrite Hb. reflexivity.
-  - simpl in H. destruct (step s e) as [s1|] eqn:E; [|discriminate].
-    rewrite (rule_step _ _ _ tr E Hb). destruct (broken s1) eqn:Hb1; simpl.
-    + rewrite (broken_mono _ _ _ H Hb1). reflexivity.
+  - simpl in H. destruct (step1 s e) as [s1|] eqn:E; [|discriminate].
+    rewrite (rule_step1 _ _ _ tr E Hb). destruct (broken s1) eqn:Hb1; simpl.
+    + rewrite (broken_mono1 _ _ _ H Hb1). reflexivity.
     + apply IH; auto.
 Qed.
 
-Theorem rule_is_not_broken n tr s : run (init n) tr = Some s -> follows_rule n tr = negb (broken s).
-Proof. intros H. apply (rule_run tr (init n) s H). reflexivity. Qed.
+Theorem rule_is_not_broken1 n tr s : run1 (init n) tr = Some s -> follows_rule n tr = negb (broken s).
+Proof. intros H. apply (rule_run1 tr (init n) s H). reflexivity. Qed.
 
 (* ---- consequences, in the terms of the property ------------------------------------------------------------ *)
 
-Lemma run_app tr1 : forall tr2 s s2, run s (tr1 ++ tr2) = Some s2 ->
-  exists s1, run s tr1 = Some s1 /\ run s1 tr2 = Some s2.
+Lemma run_app1 tr1 : forall tr2 s s2, run1 s (tr1 ++ tr2) = Some s2 ->
+  exists s1, run1 s tr1 = Some s1 /\ run1 s1 tr2 = Some s2.
 Proof.
   induction tr1 as [|e tr1 IH]; simpl; intros tr2 s s2 H.
   - eauto.
-  - destruct (step s e) as [s'|]; [|discriminate]. apply IH; auto.
+  - destruct (step1 s e) as [s'|]; [|discriminate]. apply IH; auto.
 Qed.
 
 (* (1) releases happen at zero, zero is stable, zero means everything added has been done / completed *)
@@ -490,11 +490,11 @@ Proof.
   destruct w, a, p; simpl in *; try discriminate; try congruence; auto.
 Qed.
 
-Lemma fired_mono_step s e s' : step s e = Some s' -> fired s = true -> fired s' = true.
+Lemma fired_mono_step1 s e s' : step1 s e = Some s' -> fired s = true -> fired s' = true.
 Proof.
   intros H Hb. destruct e.
   1-6: simpl in H; try (case_hyp H); inv_some H; simpl; rewrite ?Hb; auto.
-  all: unfold step, ev_w, ev_f in H; cbv beta iota in H.
+  all: unfold step1, ev_w, ev_f in H; cbv beta iota in H; try discriminate H.
   all: match type of H with
        | context [nth_error (ws ?s) ?w] =>
            destruct (nth_error (ws s) w) as [r0|] eqn:Hn; [|discriminate];
@@ -505,11 +505,11 @@ Proof.
   all: simpl in H; case_hyp H; inv_some H; simpl; rewrite ?Hb; auto.
 Qed.
 
-Lemma fired_mono tr : forall s s', run s tr = Some s' -> fired s = true -> fired s' = true.
+Lemma fired_mono1 tr : forall s s', run1 s tr = Some s' -> fired s = true -> fired s' = true.
 Proof.
   induction tr as [|e tr IH]; simpl; intros s s' H Hb.
   - inv_some H. auto.
-  - destruct (step s e) as [s1|] eqn:E; [|discriminate]. eapply IH; eauto. eapply fired_mono_step; eauto.
+  - destruct (step1 s e) as [s1|] eqn:E; [|discriminate]. eapply IH; eauto. eapply fired_mono_step1; eauto.
 Qed.
 
 (* while the count is non-zero (and the rule has been respected so far) it has never been zero: the documented
@@ -566,13 +566,13 @@ Proof.
   all: try discriminate.
 Qed.
 
-Lemma no_late_registration s e s' w r' : is_all (head s) = true -> step s e = Some s' ->
+Lemma no_late_registration1 s e s' w r' : is_all (head s) = true -> step1 s e = Some s' ->
   nth_error (ws s') w = Some r' -> reg r' = true -> exists r, nth_error (ws s) w = Some r /\ reg r = true.
 Proof.
   intros Ha H Hn Hr. destruct e.
   1-6: simpl in H; try (case_hyp H); inv_some H; simpl in *; eauto.
   1: { apply nth_app_new in Hn. destruct Hn as [Hn|[_ ->]]; eauto. destruct k; discriminate. }
-  all: unfold step, ev_w, ev_f in H; cbv beta iota in H.
+  all: unfold step1, ev_w, ev_f in H; cbv beta iota in H; try discriminate H.
   all: match type of H with
        | context [nth_error (ws ?s) ?w0] =>
            destruct (nth_error (ws s) w0) as [r0|] eqn:Hn0; [|discriminate];
@@ -623,19 +623,19 @@ Proof. intros (_ & _ & _ & _ & (_ & R2 & R3 & _)). auto. Qed.
 
 (* (6) OneShotEvent alone: without counter events, [fired] means Set was called *)
 Definition ose_trace (tr : list ev) : bool :=
-  forallb (fun e => match e with EAdd _ _ | ESub _ _ | EFAdd _ _ | EFSubA _ _ | EFSubP _ _ => false | _ => true end) tr.
+  forallb (fun e => match e with EAdd _ _ | ESub _ _ | EFAdd _ _ | EFSubA _ _ | EFSubP _ _ | EFAddN _ _ | EFSubN _ _ => false | _ => true end) tr.
 
-Lemma ose_fired tr : forall s s', run s tr = Some s' -> ose_trace tr = true -> fired s' = true ->
+Lemma ose_fired1 tr : forall s s', run1 s tr = Some s' -> ose_trace tr = true -> fired s' = true ->
   fired s = true \/ In EUserSet tr.
 Proof.
   induction tr as [|e tr IH]; simpl; intros s s' H Ho Hf.
   - inv_some H. auto.
-  - destruct (step s e) as [s1|] eqn:E; [|discriminate]. apply andb_true_iff in Ho. destruct Ho as [He Ho].
+  - destruct (step1 s e) as [s1|] eqn:E; [|discriminate]. apply andb_true_iff in Ho. destruct Ho as [He Ho].
     destruct (IH _ _ H Ho Hf) as [Hf1|Hin]; [|auto].
     destruct e; try discriminate; auto.
     1-2: simpl in E; inv_some E; auto.
     1: { simpl in E. case_hyp E; inv_some E; auto. }
-    all: unfold step, ev_w, ev_f in E; cbv beta iota in E.
+    all: unfold step1, ev_w, ev_f in E; cbv beta iota in E; try discriminate E.
     all: match type of E with
          | context [nth_error (ws ?s) ?w] =>
              destruct (nth_error (ws s) w) as [r0|] eqn:Hn; [|discriminate];
@@ -646,16 +646,16 @@ Proof.
          end.
 Qed.
 
-Lemma run_app_intro tr1 : forall tr2 s s1 s2, run s tr1 = Some s1 -> run s1 tr2 = Some s2 ->
-  run s (tr1 ++ tr2) = Some s2.
+Lemma run_app_intro1 tr1 : forall tr2 s s1 s2, run1 s tr1 = Some s1 -> run1 s1 tr2 = Some s2 ->
+  run1 s (tr1 ++ tr2) = Some s2.
 Proof.
   induction tr1 as [|e tr1 IH]; simpl; intros tr2 s s1 s2 H1 H2.
   - inv_some H1. auto.
-  - destruct (step s e) as [s'|]; [|discriminate]. eapply IH; eauto.
+  - destruct (step1 s e) as [s'|]; [|discriminate]. eapply IH; eauto.
 Qed.
 
-Lemma rule_ok n tr s : run (init n) tr = Some s -> follows_rule n tr = true -> broken s = false.
-Proof. intros H Hr. rewrite (rule_is_not_broken _ _ _ H) in Hr. destruct (broken s); auto; discriminate. Qed.
+Lemma rule_ok1 n tr s : run1 (init n) tr = Some s -> follows_rule n tr = true -> broken s = false.
+Proof. intros H Hr. rewrite (rule_is_not_broken1 _ _ _ H) in Hr. destruct (broken s); auto; discriminate. Qed.
 
 Lemma released_fired s w r : Inv s -> nth_error (ws s) w = Some r -> pc r = WDone ->
   is_all (head s) = true /\ fired s = true.
@@ -666,24 +666,24 @@ Proof.
   split; auto. unfold Gb in G. rewrite Ha in G. destruct (fired s); auto; bsimp; discriminate.
 Qed.
 
-Lemma late_waiter_passes s w r e s' :
+Lemma late_waiter_passes1 s w r e s' :
   is_all (head s) = true -> nth_error (ws s) w = Some r ->
   (pc r = WTry \/ (exists x, pc r = WCas x) \/ (pc r = W0 /\ wk r <> KInline /\ wk r <> KSticky)) ->
   (exists v, e = ETryLd w v) \/ (exists a, e = ETryCas w a) ->
-  step s e = Some s' -> exists r', nth_error (ws s') w = Some r' /\ pc r' = WPass.
+  step1 s e = Some s' -> exists r', nth_error (ws s') w = Some r' /\ pc r' = WPass.
 Proof.
   intros Ha Hn Hp He H.
   assert (Hs : step_w s w r e = Some s').
-  { destruct He as [[v ->]|[a ->]]; unfold step, ev_w, ev_f in H; cbv beta iota in H; rewrite Hn in H; exact H. }
+  { destruct He as [[v ->]|[a ->]]; unfold step1, ev_w, ev_f in H; cbv beta iota in H; rewrite Hn in H; exact H. }
   destruct (step_w_reg _ _ _ _ _ Hs) as (r' & E & _ & Hpass). exists r'. split.
   - rewrite E. eapply nth_upd_same; eauto.
   - specialize (Hpass Ha Hp). destruct He as [[v ->]|[a ->]]; exact Hpass.
 Qed.
 
-Lemma woken_can_return s w r : nth_error (ws s) w = Some r -> pc r = WParked -> called r = true ->
-  (wk r = KBlock -> exists s', step s (ERet w) = Some s') /\
-  (wk r = KTimed -> exists s', step s (ETWake w true) = Some s').
+Lemma woken_can_return1 s w r : nth_error (ws s) w = Some r -> pc r = WParked -> called r = true ->
+  (wk r = KBlock -> exists s', step1 s (ERet w) = Some s') /\
+  (wk r = KTimed -> exists s', step1 s (ETWake w true) = Some s').
 Proof.
-  intros Hn Hp Hc. split; intros Hk; unfold step, ev_w, ev_f; cbv beta iota; rewrite Hn; simpl;
+  intros Hn Hp Hc. split; intros Hk; unfold step1, ev_w, ev_f; cbv beta iota; rewrite Hn; simpl;
     rewrite Hp, Hk, Hc; simpl; eauto.
 Qed.
